@@ -23,14 +23,9 @@ _NS = 'self.tuple_of_nests'
 # ASSUMED (decided by the bounded stand-in bounded/c05_nests_native.py, mode partition): check_partition accepts only
 # pairwise disjoint nests that do not meet the alternatives left alone
 contract('biogeme.nests.NestsForNestedLogit.check_partition', P, verify=False, modifies=[], returns='tuple[bool, str]',
-         ensures={'accepted_means_disjoint':
-                  f"implies(result[0], forall(lambda a: forall(lambda b: implies(a != b, forall(lambda p: forall(lambda r: "
-                  f"{_NS}[a].list_of_alternatives[p] != {_NS}[b].list_of_alternatives[r], 0, len({_NS}[b].list_of_alternatives)), "
-                  f"0, len({_NS}[a].list_of_alternatives))), 0, len({_NS})), 0, len({_NS})))",
+         ensures={'accepted_means_disjoint': f"implies(result[0], c05c_nests_disjoint({_NS}))",
                   'accepted_means_alone_outside_nests':
-                  f"implies(result[0] and self.alone is not None, forall(lambda a: forall(lambda p: "
-                  f"{_NS}[a].list_of_alternatives[p] not in typed(self.alone, 'set[int]'), 0, len({_NS}[a].list_of_alternatives)), "
-                  f"0, len({_NS})))"},
+                  f"implies(result[0] and self.alone is not None, c05c_nests_outside({_NS}, typed(self.alone, 'set[int]')))"},
          note='assumed: NestsForNestedLogit.check_partition returns ok only when the nests are pairwise disjoint and disjoint '
               'from `alone` (set comprehensions / set().union(*generator) are outside the engine; bounded stand-in '
               'C05:bounded:nests:accepted-structures-are-partitions-and-alone-is-the-complement)')
@@ -51,6 +46,11 @@ _DOM_K = f"forall(lambda q: forall(lambda p: {T}[q].list_of_alternatives[p] in l
 _VAL_K = (f"forall(lambda q: forall(lambda p: c05c_val(log_gi[{T}[q].list_of_alternatives[p]]) == "
           f"{G(T + '[q]', T + '[q].list_of_alternatives[p]')}, 0, len({T}[q].list_of_alternatives)), 0, _k)")
 _ALONE_K = f"forall(lambda x: implies({_IN_ALONE}, c05c_val(log_gi[x]) == 0), ty='int')"
+_DISJ = (f"forall(lambda a: forall(lambda b: implies(a != b, forall(lambda p: forall(lambda r: "
+         f"{T}[a].list_of_alternatives[p] != {T}[b].list_of_alternatives[r], 0, len({T}[b].list_of_alternatives)), "
+         f"0, len({T}[a].list_of_alternatives))), 0, len({T})), 0, len({T}))")
+_ALONE_OUT = (f"implies(nests.alone is not None, forall(lambda a: forall(lambda p: "
+              f"{T}[a].list_of_alternatives[p] not in typed(nests.alone, 'set[int]'), 0, len({T}[a].list_of_alternatives)), 0, len({T})))")
 _TYPED = "forall(lambda x: implies(x in log_gi, isinstance(log_gi[x], Expression)), ty='int')"
 
 _REQ = {
